@@ -166,7 +166,7 @@ theorem slhc_allAscii {E : Env} (f : Form) (ha : f.asciiOnly = true) :
 
 /-- `C09_ascii_only`, for either single-line hash counter -/
 theorem quoteWith_ascii {E : Env} (slhc : Env → Form → Bytes → Nat)
-    (hsl : ∀ f s, slhc E f s = 0 ∨ slhc E f s = singleLineHashCount E f s)
+    (hsl : ∀ f s, slhc E f s = 0 ∨ slhc E f s = singleLineHashCountOld E f s)
     (f : Form) (hq : f.quote < 0x80) (ha : f.asciiOnly = true) (s : Bytes) :
     AllAscii (quoteWith slhc E f s) := by
   have hQ : AllAscii [f.quote] := by intro b hb; simp at hb; omega
@@ -204,7 +204,7 @@ theorem quoteWith_ascii {E : Env} (slhc : Env → Form → Bytes → Nat)
     · rcases hsl f s with h0 | h1
       · right; left; exact h0
       · rw [h1]
-        unfold singleLineHashCount
+        unfold singleLineHashCountOld
         split
         · right; left; rfl
         · split
